@@ -433,7 +433,7 @@ func c13MultiWrite(c *Ctx, fn *ssa.Function) {
 	}
 	c.Check(okV, "R13.2", name, "visits-all", wc.Pos(), "the inner Write reaches every sink of the receiver with no early exit %s", why)
 
-	// by path exploration over up to two sinks, each accepting 1 or 2 bytes and failing or not: every sink is given the
+	// by path exploration over up to two sinks, each accepting 0, 1 or 2 bytes and failing or not: every sink is given the
 	// caller's bytes, the count returned is the smallest any sink accepted, the error is non-nil exactly when one failed
 	resolve := func(st *ConcState, v ssa.Value) ssa.Value {
 		v = stripConv(v)
@@ -488,7 +488,8 @@ func c13MultiWrite(c *Ctx, fn *ssa.Function) {
 				return nil
 			}
 			if ex.Index == 0 {
-				return []ConcAlt{{Ev: "n=1", Ints: map[ssa.Value]int64{ex: 1}}, {Ev: "n=2", Ints: map[ssa.Value]int64{ex: 2}}}
+				// 0 is a genuine count (a sink that accepted nothing), not "unset"
+				return []ConcAlt{{Ev: "n=0", Ints: map[ssa.Value]int64{ex: 0}}, {Ev: "n=1", Ints: map[ssa.Value]int64{ex: 1}}, {Ev: "n=2", Ints: map[ssa.Value]int64{ex: 2}}}
 			}
 			return []ConcAlt{{Ev: "ok", Nils: map[ssa.Value]bool{ex: true}}, {Ev: "fail", Nils: map[ssa.Value]bool{ex: false}}}
 		},
